@@ -445,8 +445,9 @@ package main
 //@   note abstract: type inference of a function definition; the function keeps its name
 
 //@ func rfdToFuncFactory
-//@   trusted
-//@   panics may
+//@   props C03
+//@   panics iff !is(FType_FFunc, rfd.Lfd.Fvar.Ftype)
+//@   ensures type-parameters-and-targets-of-the-definition: result.Tparams == rfd.Tparams && result.Targets == FType_FFunc_Value(rfd.Lfd.Fvar.Ftype).Targets
 
 // a top-level let: a variable is defined in the root scope; a function is registered as a FACTORY under its
 // name (so that every reference instantiates its type parameters afresh)
@@ -1612,8 +1613,9 @@ package main
 //@   ensures live: live(result.E0) && samebuf(result.E0, ps) && result.E0.scope == ps.scope && sameoff(result.E0.offsideCol, ps.offsideCol) && result.E0.tkz.current.begin >= ps.tkz.current.begin
 
 //@ func newVar
-//@   trusted
+//@   props C03 C07
 //@   panics never
+//@   ensures as-given: result.Name == vname && result.Ftype == vtype
 
 //@ func parseLetDestVarDef
 //@   props C06
@@ -1899,19 +1901,24 @@ package main
 //@   ensures only-the-scope-dictionary: mapsframe_except(scdict(s).VarFacMap.Fdict)
 
 //@ func udToUniFac
-//@   trusted
+//@   props C03 C09
 //@   panics never
+//@   ensures same-definition: result.Name == ud.Name && result.Tparams == ud.Tparams && result.Cases == ud.Cases
 //@ func rdToRecFac
-//@   trusted
+//@   props C03 C05
 //@   panics never
+//@   ensures same-definition: result.Name == rd.Name && result.Tparams == rd.Tparams && result.Fields == rd.Fields
 //@ func tryRecFacToRecType
-//@   trusted
+//@   props C03
 //@   modifies maps
 //@   panics may
+//@   ensures only-without-type-parameters: result.E1 == (len(rf.Tparams) == 0)
+//@   ensures named-after-the-factory: result.E1 ==> result.E0.Name == rf.Name && len(result.E0.Targs) == 0
 //@ func GenUnionFType
-//@   trusted
+//@   props C03 C09
 //@   modifies maps
 //@   panics may
+//@   ensures a-union-named-after-the-factory: is(FType_FUnion, result) && FType_FUnion_Value(result).Name == ufac.Name
 
 // a constructor reference resolves to the package variable New_U_C exactly when the emitter declares one
 // (same rule csIsVar), and to a function factory otherwise; both under the case name
@@ -2407,8 +2414,9 @@ package main
 //@   ensures registered-under-the-qualified-name: glob(vardefs) == reg_varfac(old(glob(vardefs)), sc, ite(pi.Name == "_", sff.E0, pi.Name + "." + sff.E0))
 
 //@ func GenType
-//@   trusted
-//@   panics may
+//@   props C03 C15
+//@   panics iff len(tfd.Tparams) != len(targs)
+//@   ensures instantiates-by-name: is(FType_FParamd, result) && FType_FParamd_Value(result).Name == tfd.Name && FType_FParamd_Value(result).Targs == targs
 //@ func scRegTFData
 //@   props C03
 //@   modifies maps glob:typeregs
